@@ -407,7 +407,10 @@ class MibCompiler(object):
         #
 
         for mibname in failedMibs.copy():
-            if options.get('noDeps') and mibname not in canonicalMibNames:
+            # explicitly requested MIBs that could not even be parsed are
+            # only known by the name they were asked for
+            if (options.get('noDeps') and mibname not in canonicalMibNames and
+                    mibname not in mibnames):
                 debug.logger & debug.flagCompiler and debug.logger('excluding imported MIB %s from borrowing' % mibname)
                 continue
 
@@ -470,7 +473,8 @@ class MibCompiler(object):
                 debug.logger & debug.flagCompiler and debug.logger(
                     'no suitable compiled MIB %s found anywhere' % mibname)
 
-                if options.get('noDeps') and mibname not in canonicalMibNames:
+                if (options.get('noDeps') and mibname not in canonicalMibNames and
+                        mibname not in mibnames):
                     debug.logger & debug.flagCompiler and debug.logger(
                         'excluding imported MIB %s from borrowing' % mibname)
                     processed[mibname] = statusUntouched
